@@ -32,7 +32,7 @@ RULE = (
 )
 BOUNDS = {
     "quick": {"atom_set_size": 2, "preemptions": 2, "threads": [2, 3], "clock_jumps": 1, "max_exec_per_item": 12000,
-              "round2": "engine: 24 further atoms, 8 pairs, modes {positive, both}, checks {default, all}, workers {1, 2}; python api: 3 transports x 19 atom sets; graphql: 8; provider variants: 2 threads"},
+              "round2": "engine: 24 further atoms, 8 pairs, modes {positive, both}, checks {default, all}, workers {1, 2}; python api: 3 transports x 19 atom sets; graphql: 8; provider variants: 2 threads; DOC3 (two parameters in every location, both writing orders): 4 same-location override pairs x both atom orders, all 8 overrides at once, x 4 phases"},
     "thorough": {"atom_set_size": 2, "preemptions": 3, "threads": [2, 3], "clock_jumps": 1, "max_exec_per_item": 200000,
                  "round2": "as quick (provider variants: 2 threads, 3 pre-emptions)"},
 }
